@@ -56,18 +56,44 @@ TraceTlvNext ==
                                 ELSE {})
                 \cup Sel("DRIFT", IF r.k = "err" /\ exp.k = "err" /\ r.e = exp.e /\ (r.a # exp.a \/ r.b # exp.b)
                                   THEN {<< "DRIFT", "tlv-error-payload", r.e >>} ELSE {})
+                \cup Sel("C05", IF r.k \in {"ok", "err"} /\ (r.cmp = r.inc \/ (r.k = "ok" /\ r.inc))
+                                THEN {<< "C05", "is_complete-not-negation", "tlv-item" >>} ELSE {})
                 \cup Sel("C16", IF r.k = "ok" /\ (~r.own_eq \/ r.own_t # r.t \/ r.own_v # r.v \/ r.len # RlLen(r.v) \/ r.empty # (r.v = << >>))
                                 THEN {<< "C16", "owned-tlv-differs", "tlv-next" >>} ELSE {}),
-                Flag("C11", Len(section) > 0) \cup Flag("C03", Len(section) > 0) \cup Flag("C16", r.k = "ok"))
+                Flag("C11", Len(section) > 0) \cup Flag("C03", Len(section) > 0) \cup Flag("C16", r.k = "ok") \cup Flag("C05", r.k \in {"ok", "err"}))
     /\ Next
     /\ calls' = calls + 1
+
+(* the same section consumed through nth / skip / count / last / for_each / fold / collect on fresh
+   cursors: every one of them must see the items of the standard walk (then nothing) *)
+TraceTlvDerived ==
+    /\ IsEvent("TlvDerived")
+    /\ LET d == Ev.d
+           W == Walk(section)
+           none == [k |-> "none"]
+           at(n) == IF n <= Len(W) THEN W[n] ELSE none
+           sameSeq(obs, exp) == Len(obs) = Len(exp) /\ \A i \in 1..Len(exp) : SameItem(obs[i], exp[i])
+           wrong ==
+               IF d.k # "ok" THEN {}
+               ELSE (IF \E n \in 1..Len(d.nth) : ~SameItem(d.nth[n], at(n)) THEN {<< "C11", "nth-differs-from-standard-walk", "derived" >>} ELSE {})
+                    \cup (IF ~sameSeq(d.skip2, SubSeq(W, 3, Len(W))) THEN {<< "C11", "skip-differs-from-standard-walk", "derived" >>} ELSE {})
+                    \cup (IF d.count # Len(W) \/ d.folded # Len(W) THEN {<< "C11", "count-differs-from-standard-walk", "derived" >>} ELSE {})
+                    \cup (IF ~SameItem(d.last, at(IF Len(W) = 0 THEN 1 ELSE Len(W))) THEN {<< "C11", "last-differs-from-standard-walk", "derived" >>} ELSE {})
+                    \cup (IF ~sameSeq(d.each, W) \/ ~sameSeq(d.collected, W) THEN {<< "C11", "for_each-or-collect-differs-from-standard-walk", "derived" >>} ELSE {})
+       IN  Emit(Sel("C11", wrong)
+                \cup Sel("C03", IF d.k = "panic" THEN {<< "C03", "panic", "tlv-derived" >>}
+                                ELSE IF d.count > Len(section) \div 3 + 1 THEN {<< "C03", "more-items-than-n/3+1", "tlv-derived" >>} ELSE {})
+                \cup Sel("DRIFT", IF d.k = "ok" /\ (d.hint_lo > Len(W) \/ (d.hint_hi >= 0 /\ d.hint_hi < Len(W)))
+                                  THEN {<< "DRIFT", "size_hint-excludes-the-real-count", "derived" >>} ELSE {}),
+                Flag("C11", Len(section) > 0) \cup Flag("C03", TRUE))
+    /\ UNCHANGED << section, offset, yielded, calls >>
 
 TraceTlvBound ==
     /\ IsEvent("TlvBound")
     /\ Emit(Sel("C03", {<< "C03", "iteration-did-not-end", "tlv-next" >>}) \cup Sel("C11", {<< "C11", "iteration-did-not-end", "tlv-next" >>}), {})
     /\ UNCHANGED << section, offset, yielded, calls >>
 
-TraceNext == TraceOpen \/ TraceTlvNext \/ TraceTlvBound
+TraceNext == TraceOpen \/ TraceTlvNext \/ TraceTlvDerived \/ TraceTlvBound
 
 TraceSpec == TraceInit /\ [][TraceNext]_tvars
 
